@@ -22,7 +22,7 @@ type c12Desc struct {
 	Skip     bool     `json:"insecure_skip_verify"`
 }
 
-var c12Hosts = []string{"example.com", "Example.COM", "example.com:8080", "chat.example.com", "127.0.0.1:9000", "[::1]:8443"}
+var c12Hosts = []string{"example.com", "Example.COM", "example.com:8080", "wiki.example.com", "127.0.0.1:9000", "[::1]:8443"}
 
 var c12PatternSets = [][]string{
 	nil,
@@ -131,6 +131,11 @@ func c12Run(r *fw.R, d c12Desc) {
 		{"sub." + base, "subdomain"}, {base + ".", "trailing-dot"}, {"evil.com", "foreign"}, {"10.0.0.1", "foreign-ip"}, {"[::2]", "foreign-ipv6"}, {"", "empty"},
 		{strings.Replace(base, ".", "-", 1), "dot-replaced"},
 		{"api.example.com", "middle-wildcard-collapsed"}, {"api.v2.example.com", "middle-wildcard-filled"}, {"a", "one-letter"},
+	}
+	if i := strings.IndexAny(reqHost, "iI"); i >= 0 {
+		// another host, not another spelling: U+0130 (capital I with a dot above) is no case variant of i / I
+		// (Unicode case folding keeps them apart) although lower-casing maps it to the ASCII letter
+		hosts = append(hosts, part{reqHost[:i] + "\u0130" + reqHost[i+1:], "dotted-capital-i-lookalike"})
 	}
 	// long foreign hosts whose first 32 / 64 / 128 bytes are a name the usual patterns authorise
 	for _, n := range []int{32, 64, 128} {
